@@ -1048,7 +1048,7 @@ def run(ctx):
     results["small-scope"] = run_family(ctx, FAMILIES["Hypergraph"], 0, ok, shrunk, extra=small)
     ctx.stats["small_scope_hypergraphs"] = len(small)
     ctx.exhaustive = True
-    ctx.extra["exhaustive"] = (f"correspondence + predicate on every hypergraph with {nn} labelled nodes and <= {me} distinct edges "
+    ctx.extra["exhaustive_space"] = (f"correspondence + predicate on every hypergraph with {nn} labelled nodes and <= {me} distinct edges "
                                f"among all {2 ** nn} subsets (empty edge included), each also with its first edge doubled: {len(small)} "
                                "hypergraphs, observed after every construction step with objects held from the empty network on")
     unexplained = any(r[0] for r in results.values())
